@@ -157,6 +157,20 @@ PSCEN = [
     ['LOAD "BAD3.BAS"', 'LIST', 'DELETE 10', 'SAVE "Z9",A', 'MERGE "BAD2.BAS"', 'LIST', 'CHAIN "BAD4.BAS"'],
     ['LOAD "BAD2.BAS"', 'DELETE 20', 'LIST', '15 REM x', 'LIST', 'DELETE 10-25', 'RENUM', 'LIST', 'RUN', 'EDIT 30', '@interact'],
     ['LOAD "BAD4.BAS"', 'DELETE 10', 'LIST', 'DELETE 30', 'LIST 20-', '5 REM', 'LIST', 'SAVE "Z8"', 'LOAD "Z8"', 'LIST'],
+    ['CHAIN "BAD4.BAS"', '30 PRINT 1', '10 PRINT 2', '5 REM', 'LIST', '@interact', 'CHAIN "BAD1.BAS"', '@interact', 'RUN "BAD3.BAS"', '@interact'],
+    # devices that cannot do what the open mode promises
+    ['OPEN "NUL" FOR INPUT AS 1', 'INPUT#1,A$', 'LINE INPUT#1,A$', 'A$=INPUT$(1,#1)', 'X=EOF(1)+LOF(1)', 'CLOSE',
+     'OPEN "CON" FOR RANDOM AS 1 LEN=25', 'INPUT#1,A$', 'LINE INPUT#1,A$', 'GET#1', 'PUT#1', 'FIELD#1,2 AS F$', 'CLOSE',
+     'OPEN "SCRN:" FOR RANDOM AS 2', 'INPUT#2,A$', 'CLOSE', 'OPEN "KYBD:" FOR INPUT AS 1', 'PRINT#1,"x"', 'WRITE#1,1', 'CLOSE'],
+    # coordinate mappings with bounds at the edge of the number range
+    ['SCREEN {n}', 'WINDOW({n},1E38)-({n},{n})', 'X=PMAP(16383,3%)', 'X=PMAP({n},0)', 'X=PMAP({n},1)', 'X=PMAP({n},2)',
+     'WINDOW SCREEN(-1E38,-1E38)-(1E38,1E38)', 'X=PMAP(1,3)', 'PSET(1E38,1E38)', 'VIEW({n},{n})-({n},{n})', 'X=PMAP({n},{n})', 'WINDOW'],
+    # video memory sizes (Tandy/PCjr syntax) followed by mode changes
+    ['CLEAR ,,,{n}', 'SCREEN {n}', 'CLEAR ,,,9D+999999999', 'SCREEN 7', 'CLEAR ,,,1E38', 'SCREEN 1', 'CLEAR ,,,-1', 'SCREEN 5', 'CLEAR ,,,32768', 'SCREEN 6'],
+    # an error far into a line that takes several screen rows, then the edit prompt
+    ['WIDTH 40', '10 PRINT "aaaaaaaaaaaaaaaaaaaaaaaaaaaaaaaaaaaaaaaaaaaaaaaaaaaaaaaaaaaaaaaaaaaaaaaaaaaaaaaaaaaaaaaaaaaaaaaaaaaaaaaaaaaaaa":X=)', 'RUN',
+     '@interact', '10 PRINT "bbbbbbbbbbbbbbbbbbbbbbbbbbbbbbbbbbbbbbbbbbbb":X=):PRINT "ccccccccccccccccccccccccccccccccccccccccccccccccccccccccccccccccccccccccccccccccccccccccccccccccccccccccccccccccccccccccccccccccccccccccccccc"',
+     'RUN', '@interact', 'WIDTH 80', 'RUN', '@interact', '10 X=1:Y=2:Z=(((((((((((((((((((((((((((((((((((((((((((((((((((((((((((((((((((1):A=)', 'WIDTH 40', 'RUN', '@interact'],
     # loop counters that overflow
     ['FOR I=1E38 TO 1.7E38 STEP 1E38:NEXT', 'FOR D#=1D38 TO 1.7D38 STEP 1.7D38:NEXT', 'FOR I%=32000 TO 32767 STEP 700:NEXT',
      'FOR I={n} TO {n} STEP {n}:NEXT', '10 ON ERROR GOTO 40', '20 FOR I=-1E38 TO -1.7E38 STEP -1E38:NEXT:PRINT "a"', '30 END', '40 RESUME NEXT', 'RUN'],
@@ -221,7 +235,7 @@ def gen(rng, tier, prop):
         if faulty and rng.random() < 0.10:
             ops.extend(_scenario(rng))
             continue
-        if rng.random() < 0.05:
+        if rng.random() < 0.07:
             ops.extend(_pscen(rng))
             continue
         if r < 0.70 or not faulty:
